@@ -374,8 +374,8 @@ def decompressLz (bytes : Bytes) : Res BA :=
       if length = 0 ∧ extended then                                -- :62-64
         match readU32 s with
         | none => .err .Invalid
-        | some (length, s) => outerLoop extended length s #[]
-      else outerLoop extended length s #[]
+        | some (length, s) => outerLoop extended length s (Array.emptyWithCapacity (min length 0x1000000))  -- :66
+      else outerLoop extended length s (Array.emptyWithCapacity (min length 0x1000000))                    -- :66
 
 /-! ### The `decompress` wrappers -/
 
